@@ -559,15 +559,15 @@ fn key_ok(lw: usize, rw: usize, a: (usize, usize, bool), b: (usize, usize, bool)
         _ => false,
     }
 }
-/// (has some column = column conjunct, every conjunct is a usable key)
-fn keys_of(lw: usize, rw: usize, e: &Sx) -> (bool, bool) {
+/// the AND-leaves of a join condition: Some((a, b)) for column = column, None for anything else
+fn cond_leaves(e: &Sx, out: &mut Vec<Option<((usize, usize, bool), (usize, usize, bool))>>) {
     match e {
-        Sx::And(a, b) => { let (h1, p1) = keys_of(lw, rw, a); let (h2, p2) = keys_of(lw, rw, b); (h1 || h2, p1 && p2) }
+        Sx::And(a, b) => { cond_leaves(a, out); cond_leaves(b, out); }
         Sx::Cmp(CmpOp::Eq, a, b) => match (&**a, &**b) {
-            (Sx::Col { lvl: l1, i: i1, qual: q1 }, Sx::Col { lvl: l2, i: i2, qual: q2 }) => (true, key_ok(lw, rw, (*l1, *i1, *q1), (*l2, *i2, *q2))),
-            _ => (false, false),
+            (Sx::Col { lvl: l1, i: i1, qual: q1 }, Sx::Col { lvl: l2, i: i2, qual: q2 }) => out.push(Some(((*l1, *i1, *q1), (*l2, *i2, *q2)))),
+            _ => out.push(None),
         },
-        _ => (false, false),
+        _ => out.push(None),
     }
 }
 /// bare column references resolve as SQL scoping says (`shift` = levels the expression is lifted by)
@@ -584,7 +584,7 @@ fn scalar_class(d: &Db, q: &Qry) -> i64 {
     match q {
         Qry::Sel { items, src: Src::Base(_), w } if items.len() == 1 && matches!(items[0], Sx::Col { lvl: 0, .. }) => {
             if let Some(p) = w { if own_outer(p) { return 10; } if has_sub(p) { return 11; } }
-            match qeval(d, &[], q) { Res::Ok(t) if t.len() >= 2 => 12, _ => 0 }
+            0   // more than one row is now the SQL error (855697d): no finding
         }
         Qry::Sel { items, .. } if items.len() == 1 && matches!(items[0], Sx::Col { .. }) && !matches!(items[0], Sx::Col { lvl: 0, .. }) => 10,
         _ => 11,
@@ -597,23 +597,28 @@ fn where_class(d: &Db, lw: usize, p: &Sx) -> i64 {
             if dc.is_in && dc.neg { return 6; }
             let rw = match d.tables.get(dc.k) { Some(t) => t.cols.len(), None => return 0 };
             // the join condition: [lhs = item AND] WHERE, seen from inside the subquery
-            let (mut has_key, mut pure, mut sub) = (false, true, false);
+            let mut leaves = vec![];
+            let mut sub = false;
             if dc.is_in {
                 let a = dc.a.unwrap();
                 let it = dc.item.unwrap();
                 sub |= has_sub(a) || has_sub(it);
                 match (a, it) {
                     (Sx::Col { lvl, i, qual }, Sx::Col { i: j, qual: q2, lvl: l2 }) => {
-                        has_key = true;
                         let itc = if !*q2 { (0usize, *j, true) } else { (*l2, *j, true) };
-                        pure &= key_ok(lw, rw, (lvl + 1, *i, *qual), itc);
+                        leaves.push(Some(((lvl + 1, *i, *qual), itc)));
                     }
-                    _ => { pure = false; }
+                    _ => leaves.push(None),
                 }
             }
-            if let Some(w) = dc.w { let (h, pk) = keys_of(lw, rw, w); has_key |= h; pure &= pk; sub |= has_sub(w); }
+            if let Some(w) = dc.w { cond_leaves(w, &mut leaves); sub |= has_sub(w); }
             else if !dc.is_in { return 0; }
-            if has_key { if pure { 0 } else { 7 } } else if sub { 8 } else {
+            // is_pure_equi_join: nothing but column = column, qualified sides name one table of each input
+            let tables_ok = |k: &((usize, usize, bool), (usize, usize, bool))| !(k.0 .2 && k.1 .2) || (k.0 .0 == 0 && k.1 .0 == 1) || (k.0 .0 == 1 && k.1 .0 == 0);
+            let hash = !leaves.is_empty() && leaves.iter().all(|l| matches!(l, Some(k) if tables_ok(k)));
+            if hash {
+                if leaves.iter().all(|l| matches!(l, Some((a, b)) if key_ok(lw, rw, *a, *b))) { 0 } else { 7 }
+            } else if sub { 8 } else {
                 let scopes = [rw, lw];
                 let a_ok = dc.a.map(|a| bare_ok(&scopes, a, 1)).unwrap_or(true);
                 let w_ok = dc.w.map(|w| bare_ok(&scopes, w, 0)).unwrap_or(true);
@@ -663,7 +668,6 @@ pub fn rough_class(d: &Db, c: &Chain) -> i64 {
     if !c.rest.is_empty() {
         if leaf_has_sub(&c.first) || c.rest.iter().any(|(_, _, q)| leaf_has_sub(q)) { return 3; }
         if c.parse_std() != c.parse_right() { return 2; }
-        if c.rest.iter().any(|(k, all, _)| *all && *k != SetK::Union) { return 1; }
         return 0;
     }
     match &c.first {
